@@ -10,6 +10,18 @@ NOTE_COMMON = ('Trusted base: CPython 3.12 (/venv/bin/python) and its stdlib as 
                'Runtime monitoring decides only the executions produced: held means held on the cases counted in the evidence file.')
 
 CHECKS = {
+    'C01': dict(
+        technique='runtime monitor over real executions: generated programs run under CPython on every decision vector (DFS) with observation-only AST instrumentation; each successful identifier read is checked against lint() and assist()',
+        text='Every identifier read that CPython executed successfully in the enumerated executions of the generated programs is an obligation on lint (no E02/E42) and assist (offers it) for the same text; a violation carries the program and the read. Held = held on the programs and paths counted in the evidence.',
+        design='2, 3/C01', engine='E1-dynexec'),
+    'C02': dict(
+        technique='runtime monitor with value tagging: every object a binding produces is tagged with its site, so each read event names the binding CPython delivered; compared with supp names_at alternatives, lint W01/W02 and location()',
+        text='For every (read, delivering same-scope binding site) pair observed in the enumerated executions, the site must be among the definitions supp lists on a fresh analysis, must not be reported unused, and must be listed by go-to-definition.',
+        design='2, 3/C02', engine='E1-dynexec'),
+    'C03': dict(
+        technique='runtime monitor over completely enumerated decision trees: per program every oracle decision sequence is executed (loops bounded at 2 trips), so "delivered on no path" / "unbound on some path" are decided and compared with supp alternatives, undefined markers and E02',
+        text='On programs whose decision tree was enumerated completely, every same-scope alternative supp lists must have been delivered on some path, the possibly-undefined marker must agree with the existence of an unbound arrival, and reads unbound on every path must carry E02.',
+        design='2, 3/C03', engine='E1-dynexec'),
     'C14': dict(
         technique='differential runtime monitor: every dumps/loads call on the real codec compared with a reference decoder/encoder written from the MessagePack spec; exhaustive boundary enumeration + random nested values',
         text='Every dumps()/loads() of the real supp.umsgpack on the enumerated boundary integers, lengths, first bytes and cut points (complete for those finite sets) and on random nested values is compared with an independent reference codec; a disagreement is a violation with the byte stream as witness.',
